@@ -10,7 +10,10 @@ Quantifiers.  `h : Hist α` ranges over ALL finite histories: a fresh digest (an
 compress points anywhere (explicit `compress()`, or the side effect of get_rank / get_quantile / get_CDF /
 get_PMF / serialize — `td_query_state`), and merges of two arbitrary histories (hence every merge tree).
 `tun : Tun` ranges over ALL values of the header constants (buffer multiplier, capacity fudge, …; the values in
-force are regenerated into DSGen/TDigest.lean on every run).  `sc : Scale Rat` is an ARBITRARY scale function
+force are regenerated into DSGen/TDigest.lean on every run), including BOTH shapes of `centroid::add`
+(`Tun.caddSafe`: plain `mean_ += delta`, or the overflow-safe shape that blends with the weight ratio when `delta`
+is not finite).  Over `Rat` every value is finite, so the two shapes coincide (`cadd_mean`): the fallback exists
+only in the executed Float / Float32 instances, where it is tied to the code bit for bit, not proved.  `sc : Scale Rat` is an ARBITRARY scale function
 subject only to `ScaleOK sc` (`max 1 normalizer = 0`: the cluster-size limit vanishes at q = 1), discharged for
 the code's k2 shape `q·(1−q)/normalizer` with any normalizer (`scaleOK_k2`).  That hypothesis is what protects
 the LAST centroid (the code's `std::distance(buffer.end(), it) != 1` is vacuously true) and, through the first /
@@ -225,7 +228,8 @@ def tunCurrent : Tun :=
   { bufMul := DSGen.tdigest_BUFFER_MULTIPLIER, fudgeThr := DSGen.tdigest_FUDGE_THRESHOLD,
     fudgeSmall := DSGen.tdigest_FUDGE_SMALL_K, fudgeLarge := DSGen.tdigest_FUDGE_LARGE_K,
     capMul := DSGen.tdigest_CAPACITY_K_MULT, comprMul := DSGen.tdigest_COMPRESSION_K_MULT,
-    minK := DSGen.tdigest_MIN_K, quantW1W2 := DSGen.tdigest_QUANTILE_WEIGHTS_AS_W1_W2 }
+    minK := DSGen.tdigest_MIN_K, caddSafe := DSGen.tdigest_CENTROID_ADD_OVERFLOW_SAFE,
+    quantW1W2 := DSGen.tdigest_QUANTILE_WEIGHTS_AS_W1_W2 }
 
 /-- FULL STATEMENT (range, q(0) = min, q(1) = max, monotone in the rank) for the code as it is now -/
 theorem td_quantile_mono_current : td_quantile_mono_full tunCurrent :=
@@ -237,7 +241,7 @@ def tunAsCoded : Tun :=
   { bufMul := DSGen.tdigest_BUFFER_MULTIPLIER, fudgeThr := DSGen.tdigest_FUDGE_THRESHOLD,
     fudgeSmall := DSGen.tdigest_FUDGE_SMALL_K, fudgeLarge := DSGen.tdigest_FUDGE_LARGE_K,
     capMul := DSGen.tdigest_CAPACITY_K_MULT, comprMul := DSGen.tdigest_COMPRESSION_K_MULT,
-    minK := DSGen.tdigest_MIN_K, quantW1W2 := true }
+    minK := DSGen.tdigest_MIN_K, caddSafe := DSGen.tdigest_CENTROID_ADD_OVERFLOW_SAFE, quantW1W2 := true }
 
 /-- witness: scale limit 4·q·(1−q) (k2 shape, constant normalizer 1/4), k = 10, values 1..6, one compress:
 centroids (1,1) (3,3) (5,1) (6,1). -/
